@@ -496,6 +496,7 @@ def observe(cfg, want):
             obs["harmmean"] = face_nested(P.harmonicMean(phi), d)
         if "upmean" in W:
             obs["upmean"] = face_nested(P.upwindMean(phi, c.u), d)
+            obs["upmean_again"] = face_nested(P.upwindMean(phi, c.u), d)      # same inputs, second call
         if "geomean" in W:
             obs["geomean"] = face_nested(P.geometricMean(phi), d)
         if "constmeans" in W:
